@@ -27,6 +27,8 @@ type hostDecl struct {
 	Force  []int
 }
 
+func newRand(seed int64) *rand.Rand { return rand.New(rand.NewSource(seed)) }
+
 var trace []string // events of the current run, protocol form
 
 // callMarker prefixes the lines host functions write to (captured) standard output.
